@@ -259,6 +259,26 @@ theorem publications_are_faithful :
     have := List.all_eq_true.1 (clause e he p hp 31 _ rfl) x hx
     simpa [hpub] using this
 
+/-- **(vi′) the answer.**  What `CreateTransaction` / `RevertTransaction` hand back is the transaction in the payload of
+the log the entry point was answered with: the log this request chained (after the wait for its persistence), the log
+the store returned for the idempotency key, or — only on a path that decided `dry` — the preview; after the payload's
+kind was checked. -/
+theorem answer_is_the_entry :
+    (∀ x ∈ tagged p, isAnswer x = true →
+      answerFrom e.1 "chained" x = true ∨ answerFrom e.1 "ikRead" x = true ∨ answerFrom e.1 "preview" x = true) ∧
+    Since (answerFrom e.1 "chained") isWaitPersisted isAppend false (tagged p) ∧
+    Since (answerFrom e.1 "preview") (isChoice "dry" true) never false (tagged p) ∧
+    Since isAnswer (isChoice "payload-kind-ok" true) never false (tagged p) := by
+  refine ⟨?_, (sinceOk_iff ..).1 (clause e he p hp 37 _ rfl), (sinceOk_iff ..).1 (clause e he p hp 38 _ rfl),
+    (sinceOk_iff ..).1 (clause e he p hp 39 _ rfl)⟩
+  intro x hx ha
+  have := List.all_eq_true.1 (clause e he p hp 36 _ rfl) x hx
+  simp only [ha, Bool.not_true, Bool.false_or, Bool.or_eq_true] at this
+  rcases this with (h | h) | h
+  · exact .inl h
+  · exact .inr (.inl h)
+  · exact .inr (.inr h)
+
 /-- **(vii) after the commit the request waits.**  Between `Batcher.Append` and the return of the wait for
 persistence there is no return (with or without error) and no panic; every channel receive waits for the persistence
 of the request's own log or for a channel the request closed itself; at most one wait. -/
@@ -267,10 +287,10 @@ theorem commit_is_followed_by_the_wait :
     Since isFin isWaitPersisted isAppend true (tagged p) ∧
     (∀ c o v, Item.act (.wait c) o v ∈ tagged p → c = "persisted" ∨ c = "closed") ∧
     Since isWait never isWait true (tagged p) := by
-  refine ⟨(sinceOk_iff ..).1 (clause e he p hp 36 _ rfl), (sinceOk_iff ..).1 (clause e he p hp 37 _ rfl), ?_,
-    (sinceOk_iff ..).1 (clause e he p hp 39 _ rfl)⟩
+  refine ⟨(sinceOk_iff ..).1 (clause e he p hp 40 _ rfl), (sinceOk_iff ..).1 (clause e he p hp 41 _ rfl), ?_,
+    (sinceOk_iff ..).1 (clause e he p hp 43 _ rfl)⟩
   intro c o v hm
-  have := List.all_eq_true.1 (clause e he p hp 38 _ rfl) _ hm
+  have := List.all_eq_true.1 (clause e he p hp 42 _ rfl) _ hm
   simpa using this
 
 /-- **(viii) nothing is left behind.**  On every path — every error return, every panic, every success — each
@@ -283,12 +303,12 @@ theorem nothing_left_behind :
     Until isMuLock isMuUnlock (tagged p) ∧
     ((∃ x, (tagged p).getLast? = some x ∧ isFin x = true) ∨ (∃ x ∈ tagged p, isPanic x = true)) ∧
     Since isDirectOrFin never isPanic true (tagged p) := by
-  refine ⟨?_, until_of_since_reverse _ _ _ ((sinceOk_iff ..).1 (clause e he p hp 41 _ rfl)),
-    until_of_since_reverse _ _ _ ((sinceOk_iff ..).1 (clause e he p hp 42 _ rfl)), ?_,
-    (sinceOk_iff ..).1 (clause e he p hp 44 _ rfl)⟩
+  refine ⟨?_, until_of_since_reverse _ _ _ ((sinceOk_iff ..).1 (clause e he p hp 45 _ rfl)),
+    until_of_since_reverse _ _ _ ((sinceOk_iff ..).1 (clause e he p hp 46 _ rfl)), ?_,
+    (sinceOk_iff ..).1 (clause e he p hp 48 _ rfl)⟩
   · intro k hk
-    exact until_of_since_reverse _ _ _ ((sinceOk_iff ..).1 (List.all_eq_true.1 (clause e he p hp 40 _ rfl) k hk))
-  · have := clause e he p hp 43 _ rfl
+    exact until_of_since_reverse _ _ _ ((sinceOk_iff ..).1 (List.all_eq_true.1 (clause e he p hp 44 _ rfl) k hk))
+  · have := clause e he p hp 47 _ rfl
     simp only [Bool.or_eq_true, List.any_eq_true] at this
     rcases this with h | h
     · left
@@ -303,7 +323,7 @@ after `WithIdempotencyKey` was applied to it. -/
 theorem key_is_recorded :
     chose (tagged p) "ik≠''" true = true → Since isChain isSetIk never false (tagged p) := by
   intro h
-  have := clause e he p hp 45 _ rfl
+  have := clause e he p hp 50 _ rfl
   simp only [h, Bool.not_true, Bool.false_or] at this
   exact (sinceOk_iff ..).1 this
 
